@@ -156,13 +156,13 @@ void vf_run(vf::Ctx& c)
         if (runner(cfg) != nullptr) { cfgs.push_back(cfg); }
     }
 
-    // E2: every history of depth 2 (thorough: depth 3 for capacities 0 and 1) over a concrete alphabet of two argument
+    // E2: every history of depth 2 (thorough: depth 3 for char capacities 0 and 1) over a concrete alphabet of two argument
     // shapes per op code, for the capacities <= 16 of this part (quick: char 0,1,7,15,16; the other types 15)
     for (auto cfg : cfgs) {
         auto cap = caps[cfg % 8];
         if (cap > 16) { continue; }
         if (!c.thorough() && cfg >= 8 && cap != 15) { continue; } // quick: the non-char types enumerate the full-tiny-layout capacity only
-        int depth = (c.thorough() && cap <= 1) ? 3 : 2;
+        int depth = (c.thorough() && cap <= 1 && cfg < 8) ? 3 : 2; // depth 3: char only (12 M cases), the budget does not allow it five times
         std::vector<RawOp> alpha;
         for (std::uint32_t code = 0; code < NCODES; ++code) {
             alpha.push_back(RawOp{code, 0, 2, 2});  // pos 0 / room-sized / target A, 'b'
